@@ -1,17 +1,19 @@
 --------------------------- MODULE Gen_Persistent ---------------------------
 (* behaviour emission for spec -> code replay.  One step = one call made by the   *)
-(* driver (start / writeinit / change / save / corrupt); a save inside a step may *)
-(* carry one fault: crash or I/O error *before* operation `at` of the reference   *)
-(* save procedure (operations 1 .. at-1 were applied).  Where the property is     *)
-(* silent the step branches (`alt`), the driver accepts any branch.               *)
+(* driver (start / writeinit / change / fchange / save / reload / reset / wipe /   *)
+(* corrupt); a save inside a step may carry one fault: crash or I/O error *before* *)
+(* operation `at` of the reference save procedure (operations 1 .. at-1 were       *)
+(* applied).  Where the property is silent the step branches (`alt`), the driver   *)
+(* accepts any branch.                                                             *)
 EXTENDS Persistent, Json
 
-CONSTANTS Depth, MaxChanges, MaxSaves, MaxFaults, MaxStarts, MaxCorrupt,
-          FirstCfgs,     \* how many parameters the first configuration may give (set of cardinalities)
-          StartCfgs,     \* ... a restart configuration may give
-          CfgVals        \* values used in configurations
+CONSTANTS Depth, MaxChanges, MaxSaves, MaxFaults, MaxStarts, MaxCorrupt, MaxOther,
+          FirstCfgs,     \* how many parameters the first configuration may mention (set of cardinalities)
+          StartCfgs,     \* ... a restart configuration may mention
+          CfgKinds,      \* subset of {"value", "default"}: what a configuration may give for a parameter
+          Vias           \* subset of {"set", "write", "read"}: how a value changes (driver, client, hardware)
 
-VARIABLES hist, cnt      \* cnt: [chg, sav, flt, st, cor] counters bounding the enumeration
+VARIABLES hist, cnt      \* cnt: [chg, sav, flt, st, cor, oth] counters bounding the enumeration
 
 gvars == <<vars, hist, cnt>>
 
@@ -25,80 +27,112 @@ SaveDisk(d, S, f) ==
     LET n == IF f.kind = "none" THEN NOps ELSE f.at - 1
         d1 == ApplyUpTo(d, S, n)
     IN IF f.kind = "ioerror" THEN [d1 EXCEPT !.tmp = Absent] ELSE d1
-SaveBelieved(bel, S, f) ==
-    IF Early THEN S
-    ELSE IF f.kind = "none" \/ f.at > RenameIdx THEN S ELSE bel
+Committed(f) == f.kind = "none" \/ f.at > RenameIdx
+SaveBelieved(bel, S, f) == IF Early \/ Committed(f) THEN S ELSE bel
 
-Proj(c) == IF c.k = "partial" THEN [k |-> "notjson", ent |-> NoSnap, extra |-> FALSE]
+Proj(c) == IF c.k = "partial" THEN [k |-> "notjson", ent |-> NoSnap, extra |-> NoVal]
            ELSE [k |-> c.k, ent |-> c.ent, extra |-> c.extra]
 SkipAllowed == IF ~alive' THEN {FALSE}
+               ELSE IF tampered' THEN BOOLEAN           \* the module cannot know what the environment removed
                ELSE IF Early THEN {believed' = val'}
                ELSE {FALSE} \cup (IF disk'.target = Complete(val') THEN {TRUE} ELSE {})
 Exp == [alive |-> alive', target |-> Proj(disk'.target), val |-> val', wd |-> wd',
-        skip |-> SkipAllowed]
+        skip |-> SkipAllowed, err |-> err', fval |-> fval']
 
 Log(rec) == hist' = Append(hist, rec @@ [exp |-> Exp])
 Count(f, field) == cnt' = [cnt EXCEPT ![field] = @ + 1, !.flt = @ + (IF f.kind = "none" THEN 0 ELSE 1)]
 
-(* a save attempt inside a step: `due` = the property demands that it happens;         *)
-(* otherwise (start-up, pending configured writes) the code may or may not save.        *)
-(* does = TRUE: the save is performed (with fault f), FALSE: nothing is written         *)
-Saving(does, S, f) ==
-    IF does /\ believed # S   \* change detection: nothing to do when believed to be on disk
-    THEN /\ disk' = SaveDisk(disk, S, f)
-         /\ IF f.kind = "crash"
-            THEN alive' = FALSE /\ val' = NoSnap /\ believed' = NoSnap /\ wd' = NoSnap
-            ELSE alive' = TRUE /\ val' = S /\ believed' = SaveBelieved(believed, S, f) /\ UNCHANGED wd
-    ELSE /\ f.kind = "none"
-         /\ alive' = TRUE /\ val' = S /\ UNCHANGED <<disk, believed, wd>>
+Dead == /\ alive' = FALSE /\ val' = NoSnap /\ believed' = NoSnap /\ wd' = NoSnap
+        /\ init' = NoSnap /\ fval' = NoVal /\ err' = {} /\ tampered' = FALSE
 
-GStart(cfg, f, does) ==
+(* the outcome of a step that ends with values S in memory and possibly a save:                    *)
+(* does = TRUE: the save is performed (with fault f) unless S is believed to be on disk (bel),      *)
+(* does = FALSE: nothing is written.  n*: the rest of the module state when the process survives   *)
+Outcome(does, S, bel, f, nwd, nerr, ninit, nfval, tamp) ==
+    IF does /\ bel # S
+    THEN /\ disk' = SaveDisk(disk, S, f)
+         /\ IF f.kind = "crash" THEN Dead
+            ELSE /\ alive' = TRUE /\ val' = S /\ believed' = SaveBelieved(bel, S, f)
+                 /\ wd' = nwd /\ err' = nerr /\ init' = ninit /\ fval' = nfval
+                 /\ tampered' = (tamp /\ ~Committed(f))
+    ELSE /\ f.kind = "none"
+         /\ alive' = TRUE /\ val' = S /\ believed' = bel
+         /\ wd' = nwd /\ err' = nerr /\ init' = ninit /\ fval' = nfval /\ tampered' = tamp
+         /\ UNCHANGED disk
+
+Mentioned(cfg, cdef) == {p \in Params : cfg[p] # NoVal \/ cdef[p] # NoVal}
+GStart(cfg, cdef, f, does) ==
     /\ cnt.st < MaxStarts
-    /\ Cardinality({p \in Params : cfg[p] # NoVal}) \in (IF cnt.st = 0 THEN FirstCfgs ELSE StartCfgs)
-    /\ \A p \in Params : cfg[p] \in CfgVals \cup {NoVal}
-    /\ LET nv == Loaded(cfg, disk.target)
+    /\ Cardinality(Mentioned(cfg, cdef)) \in (IF cnt.st = 0 THEN FirstCfgs ELSE StartCfgs)
+    /\ ("value" \in CfgKinds \/ cfg = NoSnap) /\ ("default" \in CfgKinds \/ cdef = NoSnap)
+    /\ LET nv == Loaded(cfg, cdef, disk.target)
            bel == BelievedAfterLoad(disk.target)
-       IN IF bel # nv /\ does
-          THEN /\ disk' = SaveDisk(disk, nv, f)
-               /\ IF f.kind = "crash"
-                  THEN alive' = FALSE /\ val' = NoSnap /\ believed' = NoSnap /\ wd' = NoSnap
-                  ELSE alive' = TRUE /\ val' = nv /\ wd' = Pending(nv, kind)
-                       /\ believed' = SaveBelieved(bel, nv, f)
-          ELSE /\ f.kind = "none"
-               /\ (does <=> bel = nv)           \* one branch only when there is nothing to save
-               /\ alive' = TRUE /\ val' = nv /\ wd' = Pending(nv, kind) /\ believed' = bel
-               /\ UNCHANGED disk
+       IN /\ (bel = nv => does)                  \* one branch only when there is nothing to save
+          /\ Outcome(does, nv, bel, f, Pending(nv, kind), Uninit(cfg, cdef, disk.target, kind),
+                     Factory(cfg, cdef), Default, FALSE)
     /\ UNCHANGED <<kind, pc, sv>>
     /\ Count(f, "st")
-    /\ Log([act |-> "start", cfg |-> cfg, f |-> f, alt |-> IF does THEN "" ELSE "nosave",
-            auto |-> kind.auto, hw |-> kind.hw])
+    /\ Log([act |-> "start", cfg |-> cfg, cdef |-> cdef, f |-> f, alt |-> IF does THEN "" ELSE "nosave",
+            auto |-> kind.auto, hw |-> kind.hw, nodef |-> kind.nodef])
 
 GWriteInit(does) ==
     /\ alive /\ wd # NoSnap
-    /\ wd' = NoSnap
-    /\ IF does /\ believed # val /\ (kind.auto \cap kind.hw) # {}
-       THEN disk' = SaveDisk(disk, val, NoFault) /\ believed' = val
-       ELSE (does <=> (believed = val \/ (kind.auto \cap kind.hw) = {})) /\ UNCHANGED <<disk, believed>>
-    /\ UNCHANGED <<alive, kind, val, pc, sv, cnt>>
+    /\ (does => (kind.auto \cap kind.hw) # {} /\ believed # val)
+    /\ Outcome(does, val, believed, NoFault, NoSnap, err \ kind.hw, init, fval, tampered)
+    /\ UNCHANGED <<kind, pc, sv, cnt>>
     /\ Log([act |-> "writeinit", alt |-> IF does THEN "" ELSE "nosave"])
 
-GChange(p, v, f) ==
+GChange(p, v, via, f) ==
     /\ alive /\ wd = NoSnap /\ v # val[p] /\ cnt.chg < MaxChanges
-    /\ LET nv == [val EXCEPT ![p] = v]
-       IN IF p \in kind.auto
-          THEN Saving(TRUE, nv, f)
-          ELSE /\ f.kind = "none" /\ val' = nv /\ UNCHANGED <<disk, alive, believed, wd>>
+    /\ via \in Vias /\ (via = "write" => p \in kind.hw)
+    /\ (p \notin kind.auto => f.kind = "none")
+    /\ Outcome(p \in kind.auto, [val EXCEPT ![p] = v], believed, f, wd, err \ {p}, init, fval, tampered)
     /\ UNCHANGED <<kind, pc, sv>>
     /\ Count(f, "chg")
-    /\ Log([act |-> "change", p |-> p, v |-> v, f |-> f])
+    /\ Log([act |-> "change", p |-> p, v |-> v, via |-> via, f |-> f])
+
+(* the foreign (not persistent) parameter changes: nothing to save *)
+GFChange(v) ==
+    /\ alive /\ wd = NoSnap /\ v # fval /\ cnt.oth < MaxOther
+    /\ Outcome(FALSE, val, believed, NoFault, wd, err, init, v, tampered)
+    /\ UNCHANGED <<kind, pc, sv>>
+    /\ cnt' = [cnt EXCEPT !.oth = @ + 1]
+    /\ Log([act |-> "fchange", v |-> v])
 
 GSave(f, does) ==
     /\ alive /\ cnt.sav < MaxSaves
     /\ IF wd = NoSnap THEN does ELSE (does => disk.target # Complete(val))  \* deferred while writes are pending (may)
-    /\ Saving(does, val, f)
+    /\ Outcome(does, val, believed, f, wd, err, init, fval, tampered)
     /\ UNCHANGED <<kind, pc, sv>>
     /\ Count(f, "sav")
     /\ Log([act |-> "save", f |-> f, alt |-> IF does THEN "" ELSE "nosave"])
+
+(* loadParameters(); restored values of parameters with a write method are written, which may save *)
+GReload(does) ==
+    /\ alive /\ wd = NoSnap /\ cnt.oth < MaxOther
+    /\ LET E == FileEnt(disk.target)
+           S == Reloaded(disk.target, val)
+           bel == BelievedAfterLoad(disk.target)
+       IN /\ (does => bel # S /\ \E p \in kind.auto \cap kind.hw : E[p] \in Vals)
+          /\ Outcome(does, S, bel, NoFault, wd, err \ {p \in Params : E[p] \in Vals}, init, fval, FALSE)
+    /\ UNCHANGED <<kind, pc, sv>>
+    /\ cnt' = [cnt EXCEPT !.oth = @ + 1]
+    /\ Log([act |-> "reload", alt |-> IF does THEN "" ELSE "nosave"])
+
+(* factory_reset; the automatic save of the last parameter written may happen *)
+GReset(does) ==
+    /\ alive /\ wd = NoSnap /\ cnt.oth < MaxOther
+    /\ (does => kind.auto # {} /\ believed # init)
+    /\ Outcome(does, init, believed, NoFault, wd, {}, init, fval, tampered)
+    /\ UNCHANGED <<kind, pc, sv>>
+    /\ cnt' = [cnt EXCEPT !.oth = @ + 1]
+    /\ Log([act |-> "reset", alt |-> IF does THEN "" ELSE "nosave"])
+
+GWipe ==
+    /\ cnt.cor < MaxCorrupt /\ cnt.st < MaxStarts
+    /\ Wipe
+    /\ cnt' = [cnt EXCEPT !.cor = @ + 1]
+    /\ Log([act |-> "wipe"])
 
 GCorrupt(c, p) ==
     /\ cnt.cor < MaxCorrupt /\ cnt.st < MaxStarts
@@ -106,13 +140,17 @@ GCorrupt(c, p) ==
     /\ cnt' = [cnt EXCEPT !.cor = @ + 1]
     /\ Log([act |-> "corrupt", c |-> c, p |-> p])
 
-GInit == Init /\ hist = <<>> /\ cnt = [chg |-> 0, sav |-> 0, flt |-> 0, st |-> 0, cor |-> 0]
+GInit == Init /\ hist = <<>> /\ cnt = [chg |-> 0, sav |-> 0, flt |-> 0, st |-> 0, cor |-> 0, oth |-> 0]
 Running == cnt.st < MaxStarts \/ cnt.st = 0
 GNext == Running /\
-    \/ \E cfg \in CfgSet, f \in FaultSet({"crash"}), does \in BOOLEAN : GStart(cfg, f, does)
+    \/ \E cc \in CfgPairs, f \in FaultSet({"crash"}), does \in BOOLEAN : GStart(cc[1], cc[2], f, does)
     \/ \E does \in BOOLEAN : GWriteInit(does)
-    \/ \E p \in Params, v \in Vals, f \in FaultSet({"crash", "ioerror"}) : GChange(p, v, f)
+    \/ \E p \in Params, v \in Vals, via \in Vias, f \in FaultSet({"crash", "ioerror"}) : GChange(p, v, via, f)
+    \/ \E v \in Vals : GFChange(v)
     \/ \E f \in FaultSet({"crash", "ioerror"}), does \in BOOLEAN : GSave(f, does)
+    \/ \E does \in BOOLEAN : GReload(does)
+    \/ \E does \in BOOLEAN : GReset(does)
+    \/ GWipe
     \/ \E c \in Corruptions, p \in Params : GCorrupt(c, p)
 GSpec == GInit /\ [][GNext]_gvars
 
